@@ -53,6 +53,21 @@ Theorem C25_migration_refuted :
     fst (validate H true (snd (validate H true st u p)) u q) = true.
 Proof. exact migration_refuted'. Qed.
 
+(* credential change (ReadUser / replace Password / WriteUser, as the admin handlers do): the store stays
+   well formed, so C25_iff_partial holds in the new state, and concretely the changed user is judged by the
+   NEW credential while every other user's verdicts are untouched *)
+Theorem C25_change_keeps_wf :
+  forall st n c, store_wf st -> store_wf (change_password st n c).
+Proof. exact change_keeps_wf. Qed.
+
+Theorem C25_change_decides :
+  forall H pt st n c usr u p, hash_laws H -> store_wf st -> lookup n st = Some usr ->
+    (fst (validate H pt (change_password st n c) u p) = true <->
+     if str_eqb n (lower u)
+     then u <> [] /\ p <> [] /\ cred_matches H pt (classify c) p /\ permitted usr = true
+     else fst (validate H pt st u p) = true).
+Proof. exact change_decides. Qed.
+
 (* the assumed laws are satisfiable (the stand-in used for the correspondence run satisfies them) *)
 Theorem C25_laws_satisfiable : hash_laws toy.
 Proof. exact toy_laws. Qed.
@@ -77,4 +92,13 @@ Proof.
   - split; [intros x [<-|[<-|[<-|[]]]]; reflexivity|].
     repeat constructor; cbn; intuition discriminate.
   - vm_compute. repeat split; congruence.
+Qed.
+
+Example C25_nonvacuous_change :
+  let st' := change_password ex_store [98;111;98] (bcrypt_gen toy [110;101;119]) in     (* bob := bcrypt("new") *)
+  store_wf st' /\
+  fst (validate toy false st' [66;111;98] [110;101;119]) = true /\        (* "Bob" / "new" *)
+  fst (validate toy false st' [98;111;98] [115;51]) = false.               (* old password *)
+Proof.
+  split; [apply change_keeps_wf; apply C25_nonvacuous|]. vm_compute. split; reflexivity.
 Qed.
